@@ -466,12 +466,12 @@ CONDITIONS = [
          bounds="quick: all streams of 3 choices and the streams of 4 choices starting with call-f for 3 tracepoint subsets; thorough: all streams of 4 choices and the streams of 5 starting with call-f; "
                 "7 choice kinds (line 1/2, call f/g, return, raise-caught, raise-propagate), 3 functions, 8 tracepoint subsets; one thread"),
     dict(fn="interleaved", cubes={"quick": ["tp == %d and a1 == 2 and a3 == 4 and ka == %d" % (t, k) for t in (0, 1, 2, 3) for k in (2, 3)],
-                                  "thorough": ["tp == %d and a1 == %d and ka == %d" % (t, a, k) for t in (0, 1, 2, 3) for a in range(7) for k in (1, 2, 3, 4)]},
+                                  "thorough": ["tp == %d and a1 == %d and ka == %d" % (t, a, k) for t in (0, 1, 2, 3) for a in range(7) for k in (1, 3)]},
          twins=["reach"], bounds="two live threads: A (3 choices; quick: call f, any, return) interrupted after ka events by B's whole stream (2 choices); single-tracepoint subsets"),
     dict(fn="deep_nesting", cubes=["tp == %d and n %s" % (t, r) for t in (0, 1) for r in ("<= 8", "> 8 and n <= 16", "> 16")], twins=["reach"],
          bounds="1..24 nested functions, each with its own method span / method capture; innermost returns or raises"),
     dict(fn="two_threads", cubes={"quick": ["tp == %d and c1 == 2 and c2 == %d and c3 == 4 and d3 == 4" % (t, c) for t in (0, 1, 2, 4) for c in (0, 2)],
-                                  "thorough": ["tp == %d and c1 == %d and c2 == %d and c3 == 4" % (t, c, d) for t in range(8) for c in (0, 2) for d in range(7)]},
+                                  "thorough": ["tp == %d and c1 == %d and c2 == %d and c3 == 4" % (t, c, d) for t in (0, 1, 2, 3, 6) for c in (0, 2) for d in range(7)]},
          twins=["reach", "mutant:never_close@tp == 0 and c1 == 2 and c2 == 0 and c3 == 4 and d3 == 4"],
          bounds="two sequential threads, 3 choices each (quick: first thread starts call f then line 1 | call f, both third choices = return), second thread with a fresh or a reused ident"),
 ]
